@@ -137,6 +137,36 @@ def gen_case(rng, i):
                 lst[j] = (co, c2) if c2 >= lhs_at(co, pt) else lst[j]
                 if lst[j][1] == c2:
                     lst.insert(rng.randint(j + 1, len(lst)), ({**{v: -a for v, a in co.items()}, w: e}, c2))
+    if i % 7 == 5 and not wild:
+        # a term with TWO opposite partners: one with the same bound (the pair folds into |...| <= c) and a tighter one with another
+        # bound, which has to survive the folding
+        allowed = inv + outv
+        co = {v: rng.choice([1, -1, 2, 0.5]) for v in rng.sample(allowed, rng.randint(1, min(2, len(allowed))))}
+        val = lhs_at(co, pt)
+        c_abs = ceil4(abs(val) + rng.choice([3, 5, 2.5]))
+        c_tight = ceil4(-val + rng.choice([0.5, 1, 0.25]))
+        neg = {v: -x for v, x in co.items()}
+        trio = [(co, c_abs), (neg, c_abs), (dict(neg), c_tight)]
+        if rng.random() < 0.5:
+            trio[1], trio[2] = trio[2], trio[1]
+        lst = g if (set(co) - set(inv)) or rng.random() < 0.5 else a
+        j = rng.randint(0, len(lst))
+        for t_ in trio:
+            lst.insert(j, t_)
+            j = rng.randint(j + 1, len(lst))
+    if i % 7 == 3:
+        # an opposite pair that CONTRADICTS itself (equal negative bounds, or pushed apart): the contract has no behaviour, which the
+        # printed form must say too (kept unsimplified; a reader that re-simplifies may refuse it)
+        v1, v2 = (rng.sample(inv + outv, 2) + [None])[:2] if len(inv + outv) > 1 else (inv[0], None)
+        co = {v1: rng.choice([1, 2, -1])}
+        if v2 and rng.random() < 0.7:
+            co[v2] = rng.choice([-1, 1, 3])
+        k1 = rng.choice([3, 1, 2.5, 40])
+        k2 = k1 if rng.random() < 0.6 else k1 + rng.choice([1, 2])
+        lst = g if (set(co) - set(inv)) or rng.random() < 0.5 else a
+        j = rng.randint(0, len(lst))
+        lst.insert(j, (co, -k1))
+        lst.insert(rng.randint(j + 1, len(lst)), ({v: -x for v, x in co.items()}, -k2))
     if near:
         lst = a if (near[0] in inv and rng.random() < 0.5) else g
         pair = near[1] if rng.random() < 0.5 else list(reversed(near[1]))
@@ -199,9 +229,13 @@ def run_case(case):
             e["exc"] = "ValueError" if isinstance(ex, ValueError) else type(ex).__name__
             e["_msg"] = str(ex)[:120]
             e["names"] = sorted(C.cvars(orig))
-            if e["exc"] == "ValueError" and C.contract_ok(orig):
-                ic = H.infeas_cert(orig["a"] + orig["g"], e["names"], box=False)
+            if e["exc"] == "ValueError":
+                # a certificate over the rows that could be read exactly (rows of wide magnitude take no part; indices refer to the full list)
+                allrows = orig["a"] + orig["g"]
+                idx = [j for j, r in enumerate(allrows) if r.get("_ok", True)]
+                ic = H.infeas_cert([allrows[j] for j in idx], e["names"], box=False) if idx else None
                 if ic is not None:
+                    ic = dict(ic, lam={str(idx[int(k) - 1] + 1): v for k, v in ic["lam"].items()})
                     e["infeas"] = H.strip(ic)
             evs.append(e)
             return
